@@ -191,6 +191,22 @@ packet('player position and look (serverbound)',
 packet('teleport confirm', PKT + 'serverbound.play:TeleportConfirmPacket',
        'serverbound', 'play', [(between(107, 757), 0x00, ['varint'])])
 
+# ---- layout changes dated by the pre-release changelogs ------------------
+# Between two releases the documentation dates some layout changes to a
+# particular development version ("Pre-release protocol" pages).  Only the
+# ones I can vouch for are listed; each says which wire shape a field has
+# before and from the named protocol number (in order of publication).
+BOUNDARIES = [
+    dict(packet='keep alive (clientbound)', field=0, protocol=339,
+         before='varint', since='i64',
+         source='1.12.2-pre1 (339): Keep Alive ID changed from VarInt to '
+                'Long, both directions'),
+    dict(packet='keep alive (serverbound)', field=0, protocol=339,
+         before='varint', since='i64',
+         source='1.12.2-pre1 (339): Keep Alive ID changed from VarInt to '
+                'Long, both directions'),
+]
+
 OUT = dict(
     _provenance=(
         'Ids and field layouts of the packets a client needs to connect, '
@@ -198,11 +214,13 @@ OUT = dict(
         'the published protocol documentation (wiki.vg Protocol page '
         'history, Protocol version numbers) from memory -- the sandbox has '
         'no network.  Layouts are wire shapes (i8 i16 i32 i64 f32 f64 bool '
-        'varint string uuid bytes nbt array(...)): signedness is not part '
-        'of a byte layout.  Shares no code or data with pyCraft.'),
+        'varint string uuid bytes nbt array(...)); u16 / i64 carry the '
+        'published signedness, 8-bit fields do not.  Shares no code or data '
+        'with pyCraft.'),
     releases=RELEASES,
     constants={'STATE_STATUS': 1, 'STATE_PLAYING': 2},
     packets=P,
+    boundaries=BOUNDARIES,
     omitted=['Entries for the two 1.7.x protocol numbers (4, 5): the README '
              'does not list them as supported.'])
 
